@@ -19,6 +19,9 @@
 #include <utility>
 #include <vector>
 
+// a container class "of the experiment" that is not spelled std::vector<...> (declared through return_type_collection)
+namespace ana { typedef std::vector<float> FloatList; }
+
 namespace mon {
 inline std::ostream &out() { return std::cout; }
 inline std::string hex(const std::string &s) {
